@@ -20,6 +20,8 @@ def norm_and_jacobian(ck, run):
     g, loc, init = run.g, run.locals, run.holder["init"]
     qn = "region_geometry:RegionGeom"
     u1, u2, u3, u4 = U
+    if not geom.need(ck, run, qn + ".throw", ["q", "r", "b"], lambda: native_first(ck)):
+        return
     q, rr, b = loc["q"].e, loc["r"].e, loc["b"].e
     A_ = H**2 - R**2
     # normalisation: mcnorm = (sin^2 theta_max / 2)(2 pi)(dphi) B / (2H), B = integral_{Lmin}^{Lmax} (H^2 - R^2 - L^2) dL
